@@ -373,4 +373,20 @@ example : run extractPointsSteps (fun i => if i = 3 then some (.command 1) else 
   decide +kernel
 example : run clipSteps (fun _ => none) = ⟨0, false, 1⟩ := by decide +kernel
 
+/-! ## the command-line tables are those of the code (T)
+
+`harness/tables.py` translates `Command.guess_format` from its AST (the chain of `if extension …: return …`
+statements, in order) and reads the `--format` / `--missing-points` choices and defaults from the parsers the
+commands build; the results are regenerated into `Gen/Tables.lean` on every run. An edit of any of them in
+emsarray breaks one of these obligations. -/
+
+theorem guess_table_generated : Ems.Gen.guessFormatTable = guessTable := by decide
+
+theorem format_choices_generated :
+    Ems.Gen.formatChoices = formatChoices ∧ Ems.Gen.formatDefault = some "auto" := by decide
+
+theorem missing_points_generated :
+    Ems.Gen.missingPointsChoices = missingPointPolicies ∧
+      Ems.Gen.missingPointsDefault = missingPointPolicies.head? := by decide
+
 end Ems.C20
